@@ -63,8 +63,18 @@ class AMatch:
 
 
 class ARegex:
-    def __init__(self, name):
+    def __init__(self, name, pattern=None, flags=0):
         self.name = name
+        self.pattern = pattern      # anonymous regexes built from concrete text
+        self.flags = flags
+
+
+class CMatch:
+    """the host's match object for a repository regex applied to a concrete string"""
+
+    def __init__(self, m, regex):
+        self.m = m
+        self.regex = regex
 
 
 class ADict:
@@ -410,7 +420,7 @@ class Interp:
             return bool(v.d)
         if isinstance(v, AList):
             return bool(v.l)
-        if isinstance(v, (AMatch, ALine, ARegex, ModuleFunc, APart, AIter, ACount, ALazy, AGen)):
+        if isinstance(v, (AMatch, ALine, ARegex, ModuleFunc, APart, AIter, ACount, ALazy, AGen, CMatch)):
             return True
         if isinstance(v, tuple) and v and v[0] in ('bound', 'builtin', 'extern', 'hostattr', 'partial', 'closure', 'class', 'closure-def', 'cmpkey', 'itemgetter'):
             return True
@@ -542,7 +552,7 @@ class Interp:
                             pass
                 return ('extern', modname, orig)
             if e.id in ('len', 'next', 'iter', 'reversed', 'list', 'enumerate', 'isinstance', 'str', 'int', 'float', 'dict', 'tuple', 'range', 'bool', 'min', 'max', 'complex',
-                        'ord', 'chr', 'callable', 'object', 'type'):
+                        'ord', 'chr', 'callable', 'object', 'type', 'getattr', 'hasattr'):
                 return ('builtin', e.id)
             self.bad(e, f'unknown name {e.id}')
         if isinstance(e, ast.Dict):
@@ -663,6 +673,11 @@ class Interp:
                 return base[key]
             if isinstance(base, AMatch) and isinstance(key, (str, int)):
                 return self.group(base, key, e)
+            if isinstance(base, CMatch) and isinstance(key, (str, int)):
+                try:
+                    return base.m[key]
+                except IndexError as exc:
+                    raise RaiseSig('IndexError', (str(exc),), e)
             if isinstance(base, Sym):
                 return Sym('item', base, key)
             if base is None:
@@ -676,6 +691,8 @@ class Interp:
                 return ('hostattr', f'{base[1]}.{e.attr}')
             if isinstance(base, (ARegex, AList, ADict, str)) and not isinstance(getattr(e, 'ctx', None), ast.Store):
                 return ('bound', base, e.attr)
+            if isinstance(base, tuple) and base and base[0] == 'partial' and e.attr in ('func', 'args', 'keywords'):
+                return base[1] if e.attr == 'func' else tuple(base[2]) if e.attr == 'args' else ADict()
             if isinstance(base, Sym):
                 if base.kind == 'exc' and len(base.args) > 1:
                     a = base.args[1]
@@ -729,10 +746,11 @@ class Interp:
                 self.comp(e, ix + 1, env, out)
 
     def compare(self, op, a, b, node):
-        if isinstance(op, ast.Is):
-            return a is b or (a is None and b is None) or (isinstance(a, bool) and a is b)
-        if isinstance(op, ast.IsNot):
-            return not (a is b or (a is None and b is None))
+        if isinstance(op, (ast.Is, ast.IsNot)):
+            tok = ('builtin', 'typeof', 'class', 'module', 'hostattr', 'extern')
+            same = a is b or (a is None and b is None) or \
+                (isinstance(a, tuple) and isinstance(b, tuple) and a and b and a[0] in tok and b[0] in tok and a == b)      # names of host objects
+            return same if isinstance(op, ast.Is) else not same
         if isinstance(op, (ast.In, ast.NotIn)):
             if isinstance(b, ADict):
                 r = a in b.d
@@ -929,7 +947,14 @@ class Interp:
     def host_function(self, name, args, e):
         """standard-library functions with exact models: itertools.count, the operator module"""
         if name == 're.compile':
+            if args and isinstance(args[0], str) and all(isinstance(a, int) for a in args[1:]):
+                return ARegex('<anonymous>', args[0], args[1] if len(args) > 1 else 0)
             return ARegex('<anonymous>')
+        if name in ('re.match', 're.search', 're.fullmatch', 're.sub', 're.split', 're.findall') and len(args) >= 2 and isinstance(args[0], str):
+            return self.call_method(ARegex('<anonymous>', args[0], 0), name[3:], args[1:], e)
+        if name == 're.escape' and len(args) == 1 and isinstance(args[0], str):
+            import re as _re
+            return _re.escape(args[0])
         if name.startswith('math.') and args and all(isinstance(a, (int, float)) and not isinstance(a, bool) for a in args):
             import math
             fn = getattr(math, name[5:], None)
@@ -1075,6 +1100,34 @@ class Interp:
             r = self.host_function(f'{base[1]}.{m}', args, e)
             if r is not NotImplemented:
                 return r
+        if isinstance(base, CMatch):
+            try:
+                if m == 'group':
+                    return base.m.group(*args)
+                if m == 'groups':
+                    return tuple(base.m.groups(*args))
+                if m == 'groupdict':
+                    return ADict(base.m.groupdict(*args))
+                if m in ('start', 'end'):
+                    return getattr(base.m, m)(*args)
+                if m == 'span':
+                    return tuple(base.m.span(*args))
+            except (IndexError, TypeError) as exc:
+                raise RaiseSig(type(exc).__name__, (str(exc),), e)
+            self.bad(e, f'match method {m}')
+        if isinstance(base, ARegex) and m in ('match', 'search', 'fullmatch', 'sub', 'split', 'findall') and args and \
+                isinstance(args[1] if m == 'sub' and len(args) > 1 else args[0], str) and not (m == 'sub' and not isinstance(args[0], str)):
+            rx = self.host_regex(base, e)
+            if m in ('match', 'search', 'fullmatch'):
+                if not all(isinstance(a, int) and not isinstance(a, bool) for a in args[1:]):
+                    raise RaiseSig('TypeError', ('pos/endpos must be integers',), e)
+                r = getattr(rx, m)(*args)
+                return None if r is None else CMatch(r, base)
+            if m == 'sub':
+                return rx.sub(args[0], args[1], *[a for a in args[2:] if isinstance(a, int)])
+            if m == 'split':
+                return AList(rx.split(args[0], *[a for a in args[1:] if isinstance(a, int)]))
+            return AList([x if isinstance(x, str) else tuple(x) for x in rx.findall(args[0])])
         if isinstance(base, ARegex):
             if m == 'match':
                 line = args[0]
@@ -1222,6 +1275,30 @@ class Interp:
                 return AList(base.split(*args))
         self.bad(e, f'method call .{m}() on {type(base).__name__}')
 
+    def host_regex(self, rx, node):
+        """the host regex object of a repository regex constant (its pattern and flags are read from the source)"""
+        import re as _re
+        if rx.pattern is not None:
+            return _re.compile(rx.pattern, rx.flags)
+        mods = [self.mod]
+        repo = getattr(self, 'repo', None)
+        if repo is not None:
+            for nm in ('value', 'parser', 'library', 'runtime', 'model', 'data', 'options', 'bare'):
+                try:
+                    mods.append(repo.module(nm))
+                except Exception:
+                    pass
+        for mod in mods:
+            try:
+                table = mod.regexes()
+            except Exception:
+                continue
+            if rx.name in table:
+                r = table[rx.name]
+                pat = r.pattern[1:] if getattr(r, 'implicit_anchor', False) else r.pattern
+                return _re.compile(pat, r.flags)
+        raise Unrecognised(self.rule, f'regex {rx.name} is not a regex constant of the repository', self.mod.rel)
+
     def call_builtin(self, name, args, e):
         if name in ('list', 'dict') and not args:
             return AList() if name == 'list' else ADict()
@@ -1355,14 +1432,14 @@ class Interp:
         if name in ('set', 'frozenset'):
             return frozenset(self.iterate(args[0], e)) if args else frozenset()
         if name == 'str':
-            return str(args[0]) if isinstance(args[0], (int, str)) else Sym('str', args[0])
+            return str(args[0]) if isinstance(args[0], (int, str, float)) or args[0] is None else Sym('str', args[0])
         if name == 'bool':
             return self.truth(args[0], e)
         if name in ('int', 'float'):
-            if isinstance(args[0], (int, float)):
+            if isinstance(args[0], (int, float)) or (isinstance(args[0], str) and all(isinstance(a, int) and not isinstance(a, bool) for a in args[1:])):
                 try:
-                    return int(args[0]) if name == 'int' else float(args[0])
-                except (ValueError, OverflowError) as exc:
+                    return int(*args) if name == 'int' else float(*args)
+                except (ValueError, OverflowError, TypeError) as exc:
                     raise RaiseSig(type(exc).__name__, (str(exc),), e)
             return Sym(name, args[0])
         if name == 'ord' and isinstance(args[0], str) and len(args[0]) == 1:
@@ -1381,6 +1458,22 @@ class Interp:
                 if isinstance(v, cls):
                     return ('builtin', nm)
             self.bad(e, 'type() of an abstract value')
+        if name in ('getattr', 'hasattr') and len(args) >= 2 and isinstance(args[1], str):
+            obj, attr = args[0], args[1]
+            if isinstance(obj, tuple) and obj and obj[0] == 'partial' and attr in ('func', 'args', 'keywords'):
+                return True if name == 'hasattr' else obj[1] if attr == 'func' else tuple(obj[2]) if attr == 'args' else ADict()
+            plain = obj is None or isinstance(obj, (bool, int, float, str, AList, ADict, ModuleFunc)) or \
+                (isinstance(obj, tuple) and obj and obj[0] in ('closure', 'closure-def', 'partial', 'extern', 'builtin'))
+            if plain and attr in ('func', 'args', 'keywords', 'return_value'):
+                # host objects of these kinds have no such attribute
+                if name == 'hasattr':
+                    return False
+                if len(args) > 2:
+                    return args[2]
+                raise RaiseSig('AttributeError', (attr,), e)
+            if isinstance(obj, Sym) and name == 'getattr' and len(args) > 2:
+                return Sym('attr', obj, attr)          # an opaque host object: whatever it has there is not a repository object
+            self.bad(e, f'{name}() of an abstract value {obj!r}')
         if name == 'callable':
             return isinstance(args[0], (ModuleFunc,)) or (isinstance(args[0], tuple) and args[0] and args[0][0] in ('closure', 'partial', 'extern', 'builtin')) or \
                 (isinstance(args[0], Sym) and args[0].kind == 'hostfn')
